@@ -828,7 +828,11 @@ func (e *Engine) execSend(s *State, x *ssa.Send) {
 	cc := e.heapGet(s, "CC!", "(Array Int Int)")
 	room := app("<", app("select", cl, c), app("select", cc, c))
 	private := s.FreshRefs[c]
-	ev := Event{Kind: "send", What: x.Chan.Name(), Pos: e.P.Pos(x.Pos()), Instr: x, Blocking: true, Extra: map[string]string{"room": room, "chan": c}, Args: []*Val{e.val(s, x.X)}, ArgTypes: []types.Type{x.X.Type()}}
+	chName := x.Chan.Name()
+	if ch.Src != "" {
+		chName = ch.Src
+	}
+	ev := Event{Kind: "send", What: chName, Pos: e.P.Pos(x.Pos()), Instr: x, Blocking: true, Extra: map[string]string{"room": room, "chan": c}, Args: []*Val{e.val(s, x.X)}, ArgTypes: []types.Type{x.X.Type()}}
 	if private {
 		ev.Extra["private"] = "1"
 	}
@@ -858,7 +862,11 @@ func (e *Engine) execRecv(s *State, x *ssa.UnOp) []*State {
 		cur := app("select", cl, chv.L[0])
 		e.heapSet(s, "CL!", "(Array Int Int)", app("store", cl, chv.L[0], app("ite", app(">=", cur, "1"), app("-", cur, "1"), cur)))
 	}
-	rev := Event{Kind: "recv", What: x.X.Name(), Pos: e.P.Pos(x.Pos()), Instr: x, Blocking: true, Extra: map[string]string{}}
+	rvName := x.X.Name()
+	if chv.Src != "" {
+		rvName = chv.Src
+	}
+	rev := Event{Kind: "recv", What: rvName, Pos: e.P.Pos(x.Pos()), Instr: x, Blocking: true, Extra: map[string]string{}}
 	defer func() { e.event(s, rev) }()
 	var et types.Type
 	if x.CommaOk {
@@ -899,7 +907,11 @@ func (e *Engine) execSelect(s *State, x *ssa.Select) []*State {
 		if st.Dir == types.SendOnly {
 			d = "send"
 		}
-		cases = append(cases, d+":"+st.Chan.Name())
+		cn := st.Chan.Name()
+		if cv := e.val(s, st.Chan); cv.Src != "" {
+			cn = cv.Src
+		}
+		cases = append(cases, d+":"+cn)
 	}
 	ev.What = strings.Join(cases, ",")
 	tt := x.Type().(*types.Tuple)
